@@ -43,7 +43,8 @@ class Case:
             kw["fix_dalpha"] = (f.truth["dalpha"], v)
         if self.fix in ("alpha", "alpha+gamma"):
             if f.double:
-                A = f.truth["A"]
+                ix0 = int(np.min(f.ds.dts.ufunc_per_section(sections=f.sections, x_indices=True, calc_per="all")))
+                A = f.truth["A"] - f.truth["A"][ix0]  # alpha is zero at the first reference location by definition
                 kw["fix_alpha"] = (A.copy(), np.full(A.size, v))
             else:
                 kw["fix_alpha"] = (f.truth["dalpha"] * f.x, np.full(f.x.size, v))
